@@ -6,3 +6,5 @@ class Plugin(HistPlugin):
     id = 'C05'
     extra_import = 'HistProps HistPropCheck'
     check_fn = 'c05_check'
+    FINDING_BITS = 1 | 4 | 8
+    UNDECIDED_BITS = 2 | 16 | 32
